@@ -131,6 +131,13 @@ def gen_op(model, rng, depth=0, path=None, t=None, v=None):
         return {'path': path, 'op': 'set', 'member': arm[2], 'args': [scalar_arg(sch, arm[1], rng)]}
     sizers = set(m.sizer for m in r.members if m.kind == S.EXT)
     members = [m for m in r.members if m.name not in sizers]
+    if rng.random() < 0.04:
+        # assignment to an array counter (explicit sizer or the generated num_of_<array>) or to a name that is no
+        # member: counters stay derived from the arrays, nothing observable changes
+        names = sorted(sizers) + ['num_of_' + x.name for x in r.members if x.kind in (S.DYNAMIC, S.LIMITED)]
+        names += [rng.choice(r.members).name + rng.choice(['_', 's', '2']), 'itmes']
+        return {'path': path, 'op': 'rawattr', 'member': rng.choice(names),
+                'args': [rng.choice([0, 1, 7, 255, -1, 1 << 40, None, [1], 'x'])]}
     m = rng.choice(members)
     comp = A.is_comp(sch, m.type)
     cur = v[m.name]
@@ -355,7 +362,7 @@ def kind_of_target(sch, model, op):
     return '%s-%s' % (m.kind, base)
 
 
-def run_history(acc, sch, w, mod, tname, tags, rng, length, ops=None):
+def run_history(acc, sch, w, mod, tname, tags, rng, length, ops=None, packed=False):
     cls = getattr(mod, tname)
     msg = cls()
     model = A.Model(sch, tname)
@@ -386,6 +393,41 @@ def run_history(acc, sch, w, mod, tname, tags, rng, length, ops=None):
             op['kept'] = True      # use the array object handed out the first time (if any) instead of reading the field again
         if ops is not None and step >= len(ops):
             break
+        if op['op'] == 'rawattr':
+            history.append(op_repr(op))
+            acc.ev()
+            acc.count('operations')
+            acc.count('counter_or_unknown_attribute_assignments')
+            acc.feature('op:rawattr')
+            try:
+                tgt = A.navigate(msg, op['path'])
+                setattr(tgt, op['member'], op['args'][0])
+                got = A.OK
+            except Exception as e:  # noqa
+                got = type(e).__name__
+                tgt = None
+            acc.sig(('rawattr', 'packed' if packed else 'padded', got))
+            try:
+                now = observe(msg, sch, tname)
+            except Exception as e:  # noqa
+                acc.violation(PROP, 'observation-raises-%s-after:rawattr' % type(e).__name__,
+                              witness(error='%s: %s' % (type(e).__name__, e)))
+                return
+            readback = None
+            if tgt is not None:
+                try:
+                    readback = repr(getattr(tgt, op['member']))
+                except Exception:  # noqa
+                    readback = None
+            if (now[0], now[1], now[2]) != (before[0], before[1], before[2]) or \
+                    (readback is not None and (op['member'].startswith('num_of_') or op['member'] in
+                                               set(x.sizer for x in sch.resolve(model.resolve_path(op['path'])[0]).members
+                                                   if x.kind == S.EXT))):
+                acc.violation(PROP, 'counter-or-unknown-attribute-assignment-is-observable',
+                              witness(result=got, reads_back=readback, before=before[1], after=now[1]))
+                return
+            before = now
+            continue
         tk = kind_of_target(sch, model, op)
         pre_state = copy.deepcopy(model.state)
         expected = model.expect_and_apply(op)
@@ -483,7 +525,9 @@ def run_history(acc, sch, w, mod, tname, tags, rng, length, ops=None):
                     exp, _ = w.encode(tname, model.state, '<')
                 except Exception:  # noqa
                     exp = None
-                if exp is not None and data != exp:
+                if packed:
+                    acc.count('packed_encodings_not_compared_with_the_padded_reference')
+                elif exp is not None and data != exp:
                     acc.violation(PROP, 'encoding-differs-from-reference-after:%s' % opk,
                                   witness(encoded=C.hexs(data), reference=C.hexs(exp), state=C.jsonable(val)))
                     return
@@ -520,6 +564,20 @@ CANARY_HISTORIES = [
 ]
 
 
+def packed_twin(mod):
+    """The generated module re-based on prophy.struct_packed (docs/python_codec.rst 'packed mode'): same API, no padding."""
+    import importlib
+    with open(mod.__file__) as f:
+        src = f.read()
+    if 'prophy.struct)' not in src:
+        return None
+    path = mod.__file__[:-3] + '_packed.py'
+    with open(path, 'w') as f:
+        f.write(src.replace('prophy.struct)', 'prophy.struct_packed)'))
+    importlib.invalidate_caches()
+    return importlib.import_module(mod.__name__ + '_packed')
+
+
 def run_canaries(acc, wd):
     """Scripted histories that reach the recorded known findings on every run while they persist."""
     sch = S.Schema(CANARY_SCHEMA)
@@ -541,25 +599,39 @@ def run_shard(spec):
             run_canaries(acc, wd)
         for sch, names, tagmap, mod, nodes, rng in C.iter_py_schemas(spec, acc, wd):
             w = W.Wire(sch)
+            pk = None
+            if spec['kind'] != 'replay':
+                try:
+                    pk = packed_twin(mod)
+                except Exception as e:  # noqa
+                    acc.prereq({'stage': 'import', 'error': 'packed twin: %s' % str(e)[:300]})
             if spec['kind'] == 'seq' and spec['nrand'] <= 1:
                 names = [n for i, n in enumerate(names) if i % 2 == spec['seed'] % 2]
             for n in names:
                 if spec['kind'] == 'replay':
                     ops = [op_unrepr(d) for d in spec['extra']['history']]
-                    run_history(acc, sch, w, mod, n, ['replay'], rng, len(ops), ops)
+                    if 'packed' in spec['extra'].get('tags', []):
+                        run_history(acc, sch, w, packed_twin(mod), n, ['replay', 'packed'], rng, len(ops), ops, packed=True)
+                    else:
+                        run_history(acc, sch, w, mod, n, ['replay'], rng, len(ops), ops)
                     continue
                 for k in range(2 if spec['nrand'] <= 1 else 5):
                     run_history(acc, sch, w, mod, n, tagmap[n], random.Random(rng.random()), rng.randint(5, 40))
+                if pk is not None and rng.random() < 0.5:
+                    acc.count('packed_mode_histories')
+                    run_history(acc, sch, w, pk, n, tagmap[n] + ['packed'], random.Random(rng.random()),
+                                rng.randint(5, 40), packed=True)
     return acc.done()
 
 
 def finish(ctx, merged, specs):
     if specs and specs[0]['kind'] == 'replay':
         return
-    need = ['op:set', 'op:disc', 'op:append', 'op:insert', 'op:extend', 'op:setitem', 'op:setslice', 'op:delitem',
+    need = ['op:rawattr', 'op:set', 'op:disc', 'op:append', 'op:insert', 'op:extend', 'op:setitem', 'op:setslice', 'op:delitem',
             'op:delslice', 'op:remove', 'op:add', 'op:extend_copy', 'op:get']
     missing = [f for f in need if f not in merged['features']]
-    for k in ('accepted_operations', 'rejected_operations', 'encodings_compared'):
+    for k in ('accepted_operations', 'rejected_operations', 'encodings_compared', 'packed_mode_histories',
+              'counter_or_unknown_attribute_assignments'):
         if not merged['counters'].get(k):
             missing.append(k)
     if missing and not merged['inconclusive']:
